@@ -70,10 +70,45 @@ def constructs(f, b, enum_name, variants):
     return False
 
 
+# the computation behind a memo site may be started only by the memo function itself: any other caller bypasses the cache
+# (the value would be computed once per caller instead of once)
+ONLY_THROUGH_MEMO = [
+    # (what, callee, callers are restricted inside this self type / module prefix, allowed roots)
+    ("array literal elements", E + "evaluate::evaluate", lambda f: (f.self_ty or "") == E + "arr::spec::ExprArray",
+     ("<jrsonnet_evaluator::arr::spec::ExprArray as jrsonnet_evaluator::arr::spec::ArrayLike>::get",)),
+    ("object fields", E + "obj::ObjValue::get_idx_uncached", lambda f: True, (E + "obj::ObjValue::get_idx",)),
+]
+
+
+def check_only_through_memo(prog):
+    obs = []
+    for what, callee, scope, allowed in ONLY_THROUGH_MEMO:
+        key = "%s:only-through-memo" % short_path(callee)
+        offenders = []
+        n = 0
+        for f in prog.fns.values():
+            root = prog.fns.get(f.root) if f.root else f
+            if root is None or not scope(root):
+                continue
+            for b, t in f.calls():
+                if (t.get("res") or t.get("fn")) == callee and b in f.live_blocks and not f.is_cleanup(b):
+                    n += 1
+                    if (f.root or f.path) not in allowed:
+                        offenders.append((f, t))
+        if offenders:
+            f, t = offenders[0]
+            obs.append(bad(RULE, key, site(f, t["line"]), "%s: %s is started from %s, outside the memo function %s: the result is not shared with the cache, so the "
+                           "same %s can be evaluated more than once" % (what, short_path(callee), short_path(f.root or f.path), short_path(allowed[0]), what)))
+        else:
+            obs.append(ok(RULE, key, "", "%s: %d call(s) of %s, all inside %s" % (what, n, short_path(callee), short_path(allowed[0]))))
+    return obs
+
+
 def run(prog):
     obs = []
     for sdef in SITES:
         obs.extend(check_site(prog, sdef))
+    obs.extend(check_only_through_memo(prog))
     obs.extend(check_cached_unbound(prog))
     obs.extend(check_thunk_macro(prog))
     obs.extend(check_shared_caches(prog))
